@@ -101,6 +101,7 @@ func concStream(seed uint64, tier string, outDir string, props map[string]bool, 
 		ncases, iters = 300, 400
 	}
 	var cases []string
+	distinctSeen := map[string]bool{}
 	c := &templCtx{rep: rep, props: props, r: r}
 	for i := 0; i < ncases; i++ {
 		c.sink = &scalarSink{seen: map[string]bool{}}
@@ -199,7 +200,10 @@ func concStream(seed uint64, tier string, outDir string, props map[string]bool, 
 		cases = append(cases, fmt.Sprintf("mktc (mktt %s [] [] %s)\n  %s\n  %s\n  [%s]", tr.gallina(), gList(jfl),
 			gDescs(inCols, c.sink), gDescs(outCols, c.sink), strings.Join(probes, ";\n   ")))
 		rep.Cases++
-		rep.Distinct++
+		if key := cases[len(cases)-1]; !distinctSeen[key] {
+			distinctSeen[key] = true
+			rep.Distinct++
+		}
 		if len(rep.Samples) < 4 {
 			rep.Samples = append(rep.Samples, fmt.Sprintf("%d goroutines x %d iterations, in=%s out=%s", G, iters, descString(inCols), descString(outCols)))
 		}
